@@ -8,7 +8,7 @@ cd /repo && [ -z "$(git status --porcelain --untracked-files=no)" ] || { echo "/
 rm -rf "$D/work/evidence.keep" && cp -r "$D/evidence" "$D/work/evidence.keep"
 trap 'rm -rf "$D/evidence" && mv "$D/work/evidence.keep" "$D/evidence"' EXIT
 for sd in "$@"; do
-  sd="${sd%/}"; name="$(basename "$sd")"; prop="${name%%-*}"; prop="${prop%r2}"
+  sd="${sd%/}"; name="$(basename "$sd")"; prop="${name%%-*}"; prop="$(echo "$prop" | sed "s/r[0-9]*$//")"
   git -C /repo apply "$sd/patch.diff" || { echo "$name: patch does not apply"; continue; }
   out="$(cd "$D" && ./check "$prop" --tier quick 2>&1)"; rc=$?
   git -C /repo checkout -- .
